@@ -1,6 +1,7 @@
 import PrysmVerif.Generated.C02
 import PrysmVerif.Lemmas.C02Asp
 import PrysmVerif.Lemmas.C01Exp
+import PrysmVerif.Lemmas.PyArith
 /-!
 # C02 — propagators conserve energy and invert each other
 
@@ -34,6 +35,15 @@ theorem gen_pad_offset (n N : Nat) :
 /-- default padded length is `⌈n·Q⌉` -/
 theorem gen_pad_outlen (n Q : Rat) : padOutLen n Q = ((Rat.ceil (n * Q) : Int) : Rat) := by
   simp only [padOutLen]
+
+/-- for `Q ≥ 1` the default padded length is at least the input length, so the hypotheses `m ≤ M'`, `n ≤ N'` of the
+energy theorems are met by every `pad2d(x, Q)` / `focus(x, Q)` call with `Q ≥ 1` -/
+theorem gen_pad_outlen_ge (n : Nat) (Q : Rat) (hQ : 1 ≤ Q) : (n : Rat) ≤ padOutLen n Q := by
+  rw [gen_pad_outlen, Rat.ceil_eq_intCeil]
+  have h1 : (n : Rat) ≤ (n : Rat) * Q := by
+    have : (0 : Rat) ≤ n := Nat.cast_nonneg n
+    nlinarith
+  exact le_trans h1 (Int.le_ceil _)
 
 /-- `focus = fftshift(fft2(ifftshift(pad2d(x,Q)), norm='ortho'))`, `unfocus` the same with `ifft2`: `norm='ortho'` on both,
 `ifftshift` inside, `fftshift` outside -/
